@@ -797,8 +797,9 @@ def check_extended(chk) -> Optional[bool]:
             E(0, 5, "cWW"),  # duplicate
             E(7, 8, "cSS", how="auth"),
             E(2, ("ghost", "Z", 5, "U"), "cWW"),  # dangling
+            E(4, 8, "cWW"),  # A.G5 is already in the first row, as a later member (not as the pair that opened the row)
         ]
-        want = {(0, 5, "cWW"), (0, 3, "cWW"), (0, 9, "cWW"), (1, 4, "cWW"), (2, 5, "cWW"), (2, 4, "tSH"), (1, 6, "cWH"), (5, 6, "tWW"), (7, 8, "cSS")}
+        want = {(0, 5, "cWW"), (0, 3, "cWW"), (0, 9, "cWW"), (1, 4, "cWW"), (2, 5, "cWW"), (2, 4, "tSH"), (1, 6, "cWH"), (5, 6, "tWW"), (7, 8, "cSS"), (4, 8, "cWW")}
         m = lab.mapping(entries, False)
         text = w.getattr(m, "extended_dot_bracket")
         strands = lab.ref_sequences(False)
